@@ -196,12 +196,20 @@ def aes_property_agreement(ctx, rule: str) -> None:
         renv[nm] = b0 if i == 0 else b1
     re_ = BitEval(renv)
 
+    import re as _re
+
+    def _b(nm: str) -> str:
+        """the name a local had in the helper it was expanded from (sa/inline.py appends `_inl<n>`)"""
+        return _re.sub(r"_inl\d+$", "", nm)
+
     def defs(name: str) -> Tuple[Optional[Word], List[Word]]:
         base, adds = None, []
         for n in walk(r.node):
-            if isinstance(n, ast.Assign) and isinstance(n.targets[0], ast.Name) and n.targets[0].id == name:
-                base = re_.ev(n.value)
-            elif isinstance(n, ast.AugAssign) and isinstance(n.target, ast.Name) and n.target.id == name and isinstance(n.op, ast.Add):
+            if isinstance(n, ast.Assign) and isinstance(n.targets[0], ast.Name) and _b(n.targets[0].id) == name and not (
+                    isinstance(n.value, ast.Name) and _b(n.value.id) == name):  # (not the hand-over `x = x_inl1` of an expanded helper)
+                if base is None or n.targets[0].id != name:
+                    base = re_.ev(n.value)
+            elif isinstance(n, ast.AugAssign) and isinstance(n.target, ast.Name) and _b(n.target.id) == name and isinstance(n.op, ast.Add):
                 adds.append(re_.ev(n.value))
         return base, adds
 
@@ -233,8 +241,8 @@ def aes_property_agreement(ctx, rule: str) -> None:
         if isinstance(e, ast.Constant) and isinstance(e.value, int) and not isinstance(e.value, bool):
             return {1: e.value}
         if isinstance(e, ast.Name):
-            if e.id in ("saltsize", "ivsize"):
-                return {e.id: 1}
+            if _b(e.id) in ("saltsize", "ivsize"):
+                return {_b(e.id): 1}
             if depth > 0:
                 vals = [n.value for n in walk(r.node) if isinstance(n, ast.Assign) and isinstance(n.targets[0], ast.Name) and n.targets[0].id == e.id]
                 if len(vals) == 1:
@@ -259,8 +267,8 @@ def aes_property_agreement(ctx, rule: str) -> None:
         if isinstance(n, ast.Assign) and isinstance(n.targets[0], ast.Name) and isinstance(n.value, ast.Subscript) and isinstance(n.value.slice, ast.Slice) \
                 and isinstance(n.value.value, ast.Name) and n.value.value.id == prop_param:
             lo, up = n.value.slice.lower, n.value.slice.upper
-            sl[n.targets[0].id] = (lin(lo) if lo is not None else {}, lin(up) if up is not None else "END")
-            shown[n.targets[0].id] = (norm(lo) if lo is not None else "", norm(up) if up is not None else "")
+            sl[_b(n.targets[0].id)] = (lin(lo) if lo is not None else {}, lin(up) if up is not None else "END")
+            shown[_b(n.targets[0].id)] = (norm(lo) if lo is not None else "", norm(up) if up is not None else "")
     want_salt = ({1: 2}, {1: 2, "saltsize": 1})
     want_iv_lo = {1: 2, "saltsize": 1}
     want_iv_up = ({1: 2, "saltsize": 1, "ivsize": 1}, "END")
